@@ -27,16 +27,17 @@ def signature(K, rec, msg):
 
 
 def work(args):
-    common, ch, cfgs_of, maxlen, pid = args
+    common, ch, cfgs_of, maxlen, pid, sanitize = args
     out = {"diffs": [], "violations": [], "n": 0, "ndiff": 0, "cells": collections.Counter(), "nontrivial": set(), "samples": [],
            "dist": collections.Counter(), "error": None, "gids": [g.gid for g in ch], "extra": collections.Counter()}
     try:
-        K = er.run_chunk(common, ch, cfgs_of, maxlen)
+        K = er.run_chunk(common, ch, cfgs_of, maxlen, sanitize=sanitize)
     except Exception as e:  # noqa
         out["error"] = "exception in worker: %r" % (e,)
         return out
     if K.error:
         out["error"] = K.error
+        out["crash"] = getattr(K, "crash", None)
         return out
     oracle = ep.ORACLES.get(pid)
     for ri, rm in zip(K.impl, K.model):
@@ -72,11 +73,14 @@ def work(args):
     return out
 
 
-def run(ctx, pid, want_tags=None):
+def run(ctx, pid, want_tags=None, sanitize_thorough=False):
     ctx.proofs("Properties_" + pid)
     grams, cfgs_of, chunks, maxlen = er.plan(ctx.tier, ctx.seed, want_tags=want_tags)
     common = er.prepare_common()
-    jobs = [(common, ch, cfgs_of, maxlen, pid) for ch in chunks]
+    jobs = [(common, ch, cfgs_of, maxlen, pid, False) for ch in chunks]
+    if sanitize_thorough and ctx.tier == "thorough":
+        # same corpus again under ASan+UBSan on exact-size heap buffers (atoms and every 4th chunk)
+        jobs += [(common, ch, cfgs_of, maxlen, pid, True) for i, ch in enumerate(chunks) if i % 4 == 0 or any("atoms" in g.tags for g in ch)]
     with concurrent.futures.ProcessPoolExecutor(max_workers=vlib.JOBS) as ex:
         results = list(ex.map(work, jobs))
     n = ndiff = nontrivial = 0
@@ -86,7 +90,10 @@ def run(ctx, pid, want_tags=None):
     samples = []
     for r in results:
         if r["error"]:
-            ctx.diff("corpus chunk could not be built/run/translated against the current tree", {"gids": r["gids"], "error": r["error"]})
+            if r.get("crash"):
+                ctx.violation("crash/sanitizer: " + re.sub(r"0x[0-9a-f]+|\d+", "#", r["crash"]["report"])[:150], r["error"][:600], r["crash"])
+            else:
+                ctx.diff("corpus chunk could not be built/run/translated against the current tree", {"gids": r["gids"], "error": r["error"]})
             continue
         n += r["n"]
         ndiff += r["ndiff"]
